@@ -214,6 +214,12 @@ class Interp:
         h = self.hooks.get('stmt')
         if h is not None and h(self, st, fr):
             return
+        self._exec(st, fr)
+        h = self.hooks.get('post_stmt')
+        if h is not None:
+            h(self, st, fr)
+
+    def _exec(self, st, fr):
         if isinstance(st, ast.Expr):
             if isinstance(st.value, ast.Constant):
                 return
